@@ -206,6 +206,10 @@ func c12(r *core.Run) {
 	c11CacheCoherence(r, "B1", rel)
 	n := txnRule(r, "T1", rel)
 	r.Analysed["txn_write_sites"] = n
+	r.Rule("T3", "reads a write depends on are tracked by the writing transaction: inside a DB.Update closure (and the helpers it calls) every Txn.Get and Txn.NewIterator is made on the transaction of a DB.Update closure, never on a transaction opened inside it (DB.NewTransaction, DB.View): BadgerDB detects a conflicting concurrent write only for keys read through the committing transaction, so values scanned on a side snapshot can be overwritten before the commit without the commit failing - the rebuild then persists index entries computed from values that are no longer stored", 3)
+	c12ReadsOnWritingTxn(r, "T3", rel)
+	r.Rule("T4", "the id of a stored value is its key minus the store's prefix, exactly (shared with C17.G9): the badger store never strips the prefix with a cutset function (Trim / TrimLeft / TrimRight with a variable set) - RebuildIndexes derives the id it indexes from the key, and an id whose first characters occur in the prefix would be indexed under a truncated id that no value has", 1)
+	c17ExactTokens(r, "T4", []string{rel}, "badgerstore")
 	c12InitAnnounce(r, "I2", rel)
 	r.Rule("I3", "all-or-nothing seeding: in the function Init hands to the user's callback every return that did not collect the entry has recorded a non-nil error in the variable that the transaction body returns after the callback (or found one recorded already), and the transaction body returns that variable when it is non-nil before it writes anything; an invalid seed that is merely skipped lets Init commit the marker over a partial seed set", 2)
 	c12InitAllOrNothing(r, "I3", rel)
@@ -329,7 +333,7 @@ func c12(r *core.Run) {
 							return true
 						}
 						cal := c.Common().StaticCallee()
-						return cal != nil && cal.Name() == "setValue"
+						return cal != nil && isStoreSetValue(cal)
 					}
 					for _, c := range core.Calls(cl) {
 						if (core.IsDynamic(c) || isWrite(c)) && c != set && !core.Dominates(get, c) {
@@ -397,12 +401,12 @@ func c12(r *core.Run) {
 						// the unit lies behind a failed read of its key
 						all, n := true, 0
 						for _, h := range p.Helpers(cl) {
-							if h == cl || h.Name() == "setValue" {
+							if h == cl || isStoreSetValue(h) {
 								continue
 							}
 							for _, c := range core.Calls(h) {
 								cal := c.Common().StaticCallee()
-								if cal == nil || !(isTxnWrite(c) || cal.Name() == "setValue") {
+								if cal == nil || !(isTxnWrite(c) || isStoreSetValue(cal)) {
 									continue
 								}
 								n++
@@ -518,10 +522,13 @@ func c13(r *core.Run) {
 	r.Rule("K1", "key layout: getKey = name ':' key SEP id and getQuery = name ':' prefix fill their buffers exactly for every input length and use the same constants; the reader splits at the last SEP (the same constant) and strips len(name)+1", 5)
 	r.Rule("K2", "nil keys are never indexed: every index Set in the maintenance path is dominated by the key != nil edge", 2)
 	r.Rule("K3", "nil vs empty key: index maintenance skips an index only when the key is truly unchanged (both nil, or both non-nil and equal): bytes.Equal is evaluated only under both-non-nil", 1)
+	r.Rule("K8", "an empty key is a key (shared with C14.N5): nothing in the query store decides from the length of an index key - 'not indexed' is the nil key; a length test makes the empty key of a value with an empty indexed member count as no key", 1)
+	c13KeyPresenceByNil(r, "K8", rel)
 	r.Rule("Q1", "maintenance funnel: updateIndex is called only from the func literal handed to the task queue's Do in the change handler; the change handler is registered on the store by the constructor; Flush calls the queue's Flush", 3)
 	r.Rule("D1", "iteration direction: when the iterator options' Reverse can be true, the key passed to Seek is not the very value passed to ValidForPrefix", 1)
 	r.Rule("B1", "before-values are the stored values (shared with C11.K2): the value cached in a store transaction is dead or refreshed by every mutation; index deltas are computed from the before-value a mutation reports, so a stale one deletes the wrong entry and orphans the right one", 1)
 	r.Rule("W1", "window guards: limit==0 returns an empty result before the database is touched; a negative limit is replaced by max-int", 2)
+	r.Rule("K7", "the index learns of committed values only (shared with C11.C1): the store's mutations notify their change listeners - which queue the index maintenance - after the transaction returned successfully, not inside its closure; a Create announced before a commit that then fails leaves an index entry for a value that was never stored", 3)
 	r.Rule("K6", "every index is maintained: inside a loop over the query store's indexes (index maintenance, rebuild) nothing returns success - a `return nil` in place of `continue` ends the transaction body after the first index whose key is unchanged, and the remaining indexes (map order) keep stale entries", 1)
 	r.Rule("W2", "filter first, then the window: in the index scan the offset and the limit are counted down, and an id is appended, only for an entry the key filter accepted (typestate reset by every iterator step); entries the filter rejects must not consume offset or limit", 3)
 	r.Rule("K5", "the index only learns of values that are stored (shared with C12.I2): the index is maintained from the store's change notifications, and Init announces as created only the seeds it actually wrote (every insertion into the announced collection follows a database write); announcing a skipped seed leaves a phantom index entry", 1)
@@ -607,6 +614,7 @@ func c13(r *core.Run) {
 
 	c11CacheCoherence(r, "B1", rel)
 	c13AllIndexes(r, "K6", rel)
+	c11FanoutAfterCommit(r, "K7", rel)
 	// K2 / Q1 in querystore
 	ui, hc := iro.updateIndex, iro.handleChange
 	if ui == nil || hc == nil {
@@ -1059,6 +1067,8 @@ func c14(r *core.Run) {
 	r.Rule("N3", "query handler: a reset flag yields a reset event (resources) or a fresh result reply (query requests) and no per-event dispatch; both event dispatchers handle the same event names; errors are returned / replied", 3)
 
 	r.Rule("V1", "every query request gets its own answer (shared with C15.C1 / C16.V1): no closure created in a loop and handed to the per-group queue captures a variable the loop re-assigns (the module's go directive gives loop variables one instance per loop); the listener of a query event would otherwise hand every pending request's closure the latest message", 1)
+	r.Rule("N5", "an empty key is a key: a query is affected by a value whose index key is empty but not nil exactly like by any other value - 'the value does not exist / is not indexed' is decided by nil tests, never by the length of a key", 1)
+	c13KeyPresenceByNil(r, "N5", rel)
 	r.Rule("N4", "no query change without a mutation (shared with C12.I2): Init announces as created only the seeds it wrote; a seed skipped because its id already holds a value would otherwise run the query-change callbacks for a value that was never stored, index it next to the real one and report queries on the phantom key as affected", 1)
 
 	ui := resolveIdxRoles(p, rel).updateIndex
@@ -1320,6 +1330,77 @@ func c14(r *core.Run) {
 		}
 	}
 	r.Check(orOK, "N2", core.FuncName(aq), "returns-wasMatch||isMatch", p.Pos(aq.Pos()), "affected iff the old or the new key matches", "affectsQuery does not return the disjunction of old-match and new-match")
+	// "unaffected" is only ever concluded from the keys: a success return of the constant false lies
+	// behind a test that depends on the index keys computed for the query's own index (the
+	// unchanged-key predicate); an earlier shortcut (by index name, by a remembered "updated index")
+	// hides a change from the queries of every other index it touched
+	{
+		var keys []ssa.Value
+		for _, c := range core.Calls(aq) {
+			if !core.IsDynamic(c) || c.Common().IsInvoke() || c.Value() == nil {
+				continue
+			}
+			if f, ok := core.LoadedField(c.Common().Value); ok && strings.HasSuffix(f.Struct, "Index") && isByteSlice(c.Value().Type()) {
+				keys = append(keys, c.Value())
+			}
+		}
+		// ... or computed by a private helper that makes those calls (indexKeys(iq))
+		isKeyCall := func(c ssa.CallInstruction) bool {
+			if !core.IsDynamic(c) || c.Common().IsInvoke() || c.Value() == nil {
+				return false
+			}
+			f, ok := core.LoadedField(c.Common().Value)
+			return ok && strings.HasSuffix(f.Struct, "Index") && isByteSlice(c.Value().Type())
+		}
+		for _, c := range core.Calls(aq) {
+			cal := c.Common().StaticCallee()
+			if cal == nil || !p.IsPrivateHelper(cal) || c.Value() == nil {
+				continue
+			}
+			for _, h := range p.Helpers(cal) {
+				for _, c2 := range core.Calls(h) {
+					if isKeyCall(c2) {
+						keys = append(keys, c.Value())
+					}
+				}
+			}
+		}
+		nFalse := 0
+		for _, ret := range core.Returns(aq) {
+			if len(ret.Results) != 2 || !isConstBool(ret.Results[0], false) {
+				continue
+			}
+			if c, isC := ret.Results[1].(*ssa.Const); !isC || !c.IsNil() {
+				continue
+			}
+			nFalse++
+			// every branch that leads straight into the returning block tests the keys (the
+			// predicate is a short-circuit expression: several exits, no single dominating edge)
+			fromKeys := len(ret.Block().Preds) > 0
+			for _, pb := range ret.Block().Preds {
+				iff, isIf := pb.Instrs[len(pb.Instrs)-1].(*ssa.If)
+				if !isIf {
+					fromKeys = false
+					continue
+				}
+				dep := false
+				for _, k := range keys {
+					if dependsOn(iff.Cond, k, 0) {
+						dep = true
+					}
+				}
+				if !dep {
+					fromKeys = false
+				}
+			}
+			var conds []string
+			for _, ed := range dominatingEdges(ret) {
+				conds = append(conds, describeCond(ed))
+			}
+			r.Check(fromKeys && len(keys) > 0, "N2", core.FuncName(aq), "unaffected-only-from-the-keys:"+returnDesc(ret, conds), p.InstrPos(ret), "the constant 'unaffected' answer follows a comparison of the index keys", "affectsQuery answers 'unaffected' on a path that has not looked at the index keys of the query's index: a mutation that changes keys in several indexes is then reported to the queries of one index only, the clients of the others keep a stale result")
+		}
+		_ = nFalse
+	}
 
 	// N3
 	relS := "store"
@@ -1377,7 +1458,73 @@ func c14(r *core.Run) {
 		_, ok = core.ConstString(bo.Y)
 		return ok
 	}
-	mayDispatch := mayExec(storeFns, isNameCmp)
+	// table form: the event name indexes a package-level map whose keys are the dispatched names
+	// (filled by the package initialiser with constant keys only)
+	tableNames := func(in ssa.Instruction) ([]string, bool) {
+		lk, ok := in.(*ssa.Lookup)
+		if !ok {
+			return nil, false
+		}
+		if f, ok := core.LoadedField(lk.Index); !ok || f.Name != "Name" {
+			return nil, false
+		}
+		ld, ok := lk.X.(*ssa.UnOp)
+		if !ok {
+			return nil, false
+		}
+		g, ok := ld.X.(*ssa.Global)
+		if !ok || g.Pkg == nil {
+			return nil, false
+		}
+		init := g.Pkg.Func("init")
+		if init == nil {
+			return nil, false
+		}
+		var out []string
+		for _, b := range init.Blocks {
+			for _, ii := range b.Instrs {
+				mu, ok := ii.(*ssa.MapUpdate)
+				if !ok || mu.Map.Referrers() == nil {
+					continue
+				}
+				toG := false
+				for _, rf := range *mu.Map.Referrers() {
+					if st, ok := rf.(*ssa.Store); ok && st.Addr == ssa.Value(g) && st.Val == mu.Map {
+						toG = true
+					}
+				}
+				if !toG {
+					continue
+				}
+				k, isC := core.ConstString(mu.Key)
+				if !isC {
+					return nil, false
+				}
+				out = append(out, k)
+			}
+		}
+		// nothing else writes the table
+		for _, fn := range storeFns {
+			for _, b := range fn.Blocks {
+				for _, ii := range b.Instrs {
+					if mu, ok := ii.(*ssa.MapUpdate); ok && fn != init {
+						if u, ok := mu.Map.(*ssa.UnOp); ok && u.X == ssa.Value(g) {
+							return nil, false
+						}
+					}
+				}
+			}
+		}
+		return out, len(out) > 0
+	}
+	isNameDispatch := func(in ssa.Instruction) bool {
+		if isNameCmp(in) {
+			return true
+		}
+		_, ok := tableNames(in)
+		return ok
+	}
+	mayDispatch := mayExec(storeFns, isNameDispatch)
 	names := func(fns []*ssa.Function) string {
 		set := map[string]bool{}
 		for _, fn := range fns {
@@ -1386,6 +1533,11 @@ func c14(r *core.Run) {
 					if isNameCmp(in) {
 						s, _ := core.ConstString(in.(*ssa.BinOp).Y)
 						set[s] = true
+					}
+					if ks, ok := tableNames(in); ok {
+						for _, k := range ks {
+							set[k] = true
+						}
 					}
 				}
 			}
@@ -2336,12 +2488,12 @@ func c12InitUnit(r *core.Run, cl *ssa.Function, rel string) bool {
 	// existing ids skipped: every other write in the unit lies behind a failed read of its key
 	skipOK, n := true, 0
 	for _, h := range p.Helpers(cl) {
-		if h.Name() == "setValue" {
+		if isStoreSetValue(h) {
 			continue // the encode-and-set helper itself: its call sites are what is guarded
 		}
 		for _, c := range core.Calls(h) {
 			cal := c.Common().StaticCallee()
-			if c == set || cal == nil || !(isTxnWrite(c) && h != cl || cal.Name() == "setValue") {
+			if c == set || cal == nil || !(isTxnWrite(c) && h != cl || isStoreSetValue(cal)) {
 				continue
 			}
 			n++
@@ -2650,5 +2802,212 @@ func c13AllIndexes(r *core.Run, rule, rel string) {
 	}
 	if n == 0 {
 		r.Bad(rule, "QueryStore", "index-loops-found", "-", "no loop over the query store's indexes found (rule went vacuous)")
+	}
+}
+
+// isStoreSetValue: the store's "encode the value and set it" helper, by role:
+// a function of the store package that takes a *badger.Txn and a value of
+// interface type and calls Txn.Set on that transaction.
+func isStoreSetValue(fn *ssa.Function) bool {
+	if fn == nil || len(fn.Blocks) == 0 {
+		return false
+	}
+	if fn.Name() == "setValue" {
+		return true
+	}
+	var txn *ssa.Parameter
+	hasVal := false
+	for _, prm := range fn.Params {
+		if pt, ok := prm.Type().(*types.Pointer); ok && core.TypeName(pt.Elem()) != "" && strings.HasSuffix(types.TypeString(pt.Elem(), nil), "badger.Txn") {
+			txn = prm
+		}
+		if isEmptyIface(prm.Type()) {
+			hasVal = true
+		}
+	}
+	if txn == nil || !hasVal || fn.Signature.Results().Len() != 1 {
+		return false
+	}
+	for _, c := range core.Calls(fn) {
+		if isBadgerCall(c, "Txn", "Set") && len(c.Common().Args) > 0 && c.Common().Args[0] == ssa.Value(txn) {
+			return true
+		}
+	}
+	return false
+}
+
+// c12ReadsOnWritingTxn: see rule T3.
+func c12ReadsOnWritingTxn(r *core.Run, rule, rel string) {
+	p := r.P
+	fns := p.FuncsOfPkg(rel)
+	seenCall := map[string]bool{}
+	n := 0
+	for _, fn := range fns {
+		for _, c := range core.Calls(fn) {
+			if !isBadgerCall(c, "DB", "Update") {
+				continue
+			}
+			cl := closureArg(c)
+			if cl == nil {
+				continue
+			}
+			unit := append([]*ssa.Function{}, withAnon(cl)...)
+			for i := 0; i < len(unit); i++ {
+				for _, h := range p.Helpers(unit[i]) {
+					dup := false
+					for _, u := range unit {
+						if u == h {
+							dup = true
+						}
+					}
+					if !dup {
+						unit = append(unit, h)
+					}
+				}
+			}
+			for _, f2 := range unit {
+				for _, c2 := range core.Calls(f2) {
+					key := fmt.Sprintf("%p/%p", cl, c2)
+					if seenCall[key] {
+						continue
+					}
+					seenCall[key] = true
+					switch {
+					case isBadgerCall(c2, "Txn", "Get"), isBadgerCall(c2, "Txn", "NewIterator"):
+						n++
+						inUnit := map[*ssa.Function]bool{}
+						for _, u := range unit {
+							inUnit[u] = true
+						}
+						ok := fromClosureTxn(p, c2.Common().Args[0], cl, inUnit, 0)
+						r.Check(ok, rule, core.FuncName(f2), "read:"+c2.Common().StaticCallee().Name()+"-on-the-writing-transaction", p.InstrPos(c2), "the read is made on the transaction that will commit the writes", "inside an update transaction a read is made on another transaction ("+valDesc(c2.Common().Args[0])+"): a concurrent change of what was read is not detected as a conflict at commit, and what is written from the stale read is persisted")
+					case isBadgerCall(c2, "DB", "NewTransaction"), isBadgerCall(c2, "DB", "View"), isBadgerCall(c2, "DB", "Update"):
+						r.Bad(rule, core.FuncName(f2), "no-second-transaction-inside-update:"+c2.Common().StaticCallee().Name(), p.InstrPos(c2), "a second transaction is opened inside an update transaction: what it reads is not in the committing transaction's read set")
+					}
+				}
+			}
+		}
+	}
+	if n == 0 {
+		r.Bad(rule, rel, "reads-inside-update-closures-found", "-", "no Txn.Get / NewIterator inside an update closure found (rule went vacuous)")
+	}
+}
+
+// fromClosureTxn: v is the transaction parameter of the update closure cl, or a
+// parameter / captured variable of a function of its unit that every call site
+// inside the unit binds to it.
+func fromClosureTxn(p *core.Prog, v ssa.Value, cl *ssa.Function, inUnit map[*ssa.Function]bool, depth int) bool {
+	if depth > 5 || v == nil {
+		return false
+	}
+	switch x := v.(type) {
+	case *ssa.Parameter:
+		if x.Parent() == cl {
+			return strings.HasSuffix(types.TypeString(x.Type(), nil), "badger.Txn")
+		}
+		pi := -1
+		for i, q := range x.Parent().Params {
+			if q == x {
+				pi = i
+			}
+		}
+		n := 0
+		for _, cs := range p.CallersOf(x.Parent()) {
+			if !inUnit[cs.Parent()] {
+				continue // a call from another transaction's unit is that unit's business
+			}
+			n++
+			if pi < 0 || pi >= len(cs.Common().Args) || !fromClosureTxn(p, cs.Common().Args[pi], cl, inUnit, depth+1) {
+				return false
+			}
+		}
+		return n > 0
+	case *ssa.FreeVar:
+		return fromClosureTxn(p, core.BindingOf(x), cl, inUnit, depth+1)
+	case *ssa.UnOp:
+		if x.Op == token.MUL {
+			if al, ok := x.X.(*ssa.Alloc); ok && al.Referrers() != nil {
+				n := 0
+				for _, rf := range *al.Referrers() {
+					if st, ok := rf.(*ssa.Store); ok && st.Addr == ssa.Value(al) {
+						n++
+						if !fromClosureTxn(p, st.Val, cl, inUnit, depth+1) {
+							return false
+						}
+					}
+				}
+				return n > 0
+			}
+			if fv, ok := x.X.(*ssa.FreeVar); ok {
+				return fromClosureTxn(p, &ssa.UnOp{Op: token.MUL, X: core.BindingOf(fv)}, cl, inUnit, depth+1)
+			}
+		}
+	}
+	return false
+}
+
+// c13KeyPresenceByNil: an index key tells "this value is not indexed" by being
+// nil; an empty, non-nil key is a key like any other (the empty name sorts
+// first). Code that decides anything from len(key) compared with a constant
+// conflates the two. Length used as a size (make, offsets) is not a decision.
+func c13KeyPresenceByNil(r *core.Run, rule, rel string) {
+	p := r.P
+	nKeys, bad := 0, 0
+	for _, fn := range p.FuncsOfPkg(rel) {
+		for _, c := range core.Calls(fn) {
+			if !core.IsDynamic(c) || c.Value() == nil {
+				continue
+			}
+			f, ok := core.LoadedField(c.Common().Value)
+			if !ok || f.Name != "Key" || !strings.HasSuffix(f.Struct, "Index") {
+				continue
+			}
+			nKeys++
+			// the key and everything it is merged into
+			set := map[ssa.Value]bool{}
+			var grow func(v ssa.Value, d int)
+			grow = func(v ssa.Value, d int) {
+				if d > 5 || set[v] || v.Referrers() == nil {
+					return
+				}
+				set[v] = true
+				for _, rf := range *v.Referrers() {
+					if phi, ok := rf.(*ssa.Phi); ok {
+						grow(phi, d+1)
+					}
+				}
+			}
+			grow(c.Value(), 0)
+			for v := range set {
+				for _, rf := range *v.Referrers() {
+					lc, ok := rf.(*ssa.Call)
+					if !ok || core.CalleeName(lc) != "builtin:len" || lc.Referrers() == nil {
+						continue
+					}
+					for _, r2 := range *lc.Referrers() {
+						bo, ok := r2.(*ssa.BinOp)
+						if !ok {
+							continue
+						}
+						switch bo.Op {
+						case token.EQL, token.NEQ, token.GTR, token.LSS, token.GEQ, token.LEQ:
+						default:
+							continue
+						}
+						other := bo.Y
+						if other == ssa.Value(lc) {
+							other = bo.X
+						}
+						if _, isC := core.ConstInt(other); isC {
+							bad++
+							r.Bad(rule, core.FuncName(fn), "key-presence-tested-by-nil-not-length", p.InstrPos(bo), "the length of an index key is compared with a constant: an empty but non-nil key (a value whose indexed member is the empty string) is then treated as 'not indexed', although index maintenance and the scan treat it as a key - a value with the empty key is missed by affectsQuery / the index although it is in the query's result")
+						}
+					}
+				}
+			}
+		}
+	}
+	if bad == 0 {
+		r.Check(nKeys > 0, rule, rel, "key-presence-tested-by-nil-not-length", "-", fmt.Sprintf("%d index-key computations; no decision is taken from a key's length", nKeys), "no call of an index's Key function found (rule went vacuous)")
 	}
 }
